@@ -5,11 +5,11 @@ Model:
   template: [attr]  attr = dict(role='ATTRIB'|'INVATR', label, count|None, rc|None, units|None, value|None)   (None = characteristic omitted)
   objects:  [(name (O, C, I), [comp])]  one comp per NON-invariant template attribute, in template order, trailing ones may be omitted;
             comp = None (omitted), dict(role='ABSATR') or dict(role='ATTRIB', count|None, rc|None, units|None, value|None)
-Values are lists of ints encodable in the attribute's rep code (USHORT 15, UNORM 16, UVARI 18) or bytes for IDENT 19.
+Values are lists of ints encodable in the attribute's rep code (USHORT 15, UNORM 16, ULONG 17, UVARI 18) or bytes for IDENT 19.
 """
 
 ROLE = dict(ABSATR=0x00, ATTRIB=0x20, INVATR=0x40, OBJECT=0x60, SET=0xe0)
-USHORT, UNORM, UVARI, IDENT = 15, 16, 18, 19
+USHORT, UNORM, ULONG, UVARI, IDENT = 15, 16, 17, 18, 19
 
 
 def ident(b):
@@ -29,6 +29,8 @@ def value_bytes(rc, v):
         return bytes([v])
     if rc == UNORM:
         return bytes([v >> 8, v & 0xff])
+    if rc == ULONG:
+        return bytes([(v >> 24) & 0xff, (v >> 16) & 0xff, (v >> 8) & 0xff, v & 0xff])
     if rc == UVARI:
         return uvari(v)
     if rc == IDENT:
